@@ -19,7 +19,9 @@ func init() {
 func (p *Prog) optionFieldMap(fn *ssa.Function) map[string][]string {
 	out := map[string][]string{}
 	for _, f := range WithClosures(fn) {
-		for _, e := range p.Events(f) {
+		// (including the stores a private setter helper makes on the method's behalf: its
+		// `*dst = v` with dst = &c.field is a store to c.field at the call site)
+		for _, e := range append(append([]*Ev{}, p.Events(f)...), p.EventsDeep(f)...) {
 			if e.Kind != "store" {
 				continue
 			}
@@ -390,13 +392,13 @@ func c18ReqTimers(p *Prog, r *Report) {
 				cls = append(cls, e)
 			}
 		}
-		okT := len(tmo) == 1
-		if okT {
+		okT := len(tmo) >= 1
+		for _, te := range tmo {
 			if t[0] == "RecvMsg" {
-				okT = hasAtom(tmo[0].Guard, "$expired")
+				okT = okT && hasAtom(te.Guard, "$expired")
 			}
 			// not reported as a timeout when the context was closed
-			okT = okT && hasAtom(tmo[0].Guard, "!recv.closed")
+			okT = okT && hasAtom(te.Guard, "!recv.closed")
 		}
 		q.Req(R, "req."+t[0]+"/timeout-constant", okT, tmo.Pos(p), "returns "+t[3]+" for an expired deadline (and ErrClosed takes precedence)", "the deadline exit of req "+t[0]+" does not return "+t[3]+" (only when not closed): "+argsOf(tmo)+" "+guardsOf(tmo))
 		other := "ErrRecvTimeout"
